@@ -26,4 +26,14 @@ theorem mhupdate_current (x : Src) (hx : x ∈ Gen.MhUpdate.all) (s : St) (ht : 
   rw [h]
   exact canon_mh_update s ht hl h0 h3 hc hp
 
+/-- **source → streaming law**: every update instance of the current tree, run on any context and input, leaves the
+    abstract state (interim digests folded over the blocks it handed to the block function, valid prefix of the partial
+    buffer) that `absorb` prescribes - the law from which the segmentation-independence theorems of C05 are derived -/
+theorem mhupdate_absorbs {D : Type} (f : D → Bytes → D) (d : D) (x : Src) (hx : x ∈ Gen.MhUpdate.all) (s : St)
+    (hl : s.input.length + 1024 < 2^32) (h64 : s.total + s.input.length < 2^64)
+    (h0 : s.locs 0 = s.input.length) (h3 : s.locs 3 = 0) (hc : s.calls = []) (hp : s.part.length = 2048) :
+    ∃ r, (run x.prog s).res = some r ∧
+      absOf f d r = absorb 1024 f ⟨d, s.part.take (s.total % 1024)⟩ s.input :=
+  ⟨_, mhupdate_current x hx s (by omega) hl h0 h3 hc hp, mhSpec_absorb f d _ _ _ hp h64⟩
+
 end IsalVerif.GenProps.MhUpdate
